@@ -143,20 +143,46 @@ def run(ctx):
         "('w'); the others append to the same path; JSONLinesWriter opens with 'a' when the file exists and writes exactly one REC and one "
         "newline per document; the filename is fixed once. Not decided: JSON serialisability of arbitrary documents.")
     jw = repo.func(JW, "JSONWriter.__call__")
-    top = [s for s in jw.node.body if isinstance(s, ast.If)]
-    ctx.require(top, "anchor vanished: the if/elif ladder of JSONWriter.__call__")
+    # the function is specialised for each kind of document (tests on `name` folded by truth-table evaluation), so an if/elif ladder
+    # with one with-block per branch and a single with-block with conditional pieces read the same
+    import copy as _copy
+
+    from .. import booleval
+
+    CASES = {"name == 'start'": {"name == 'start'": True, "name == 'stop'": False, "name != 'start'": False, "name != 'stop'": True},
+             "name == 'stop'": {"name == 'start'": False, "name == 'stop'": True, "name != 'start'": True, "name != 'stop'": False},
+             "else": {"name == 'start'": False, "name == 'stop'": False, "name != 'start'": True, "name != 'stop'": True}}
+
+    def specialise(stmts, env):
+        class F(ast.NodeTransformer):
+            def visit_If(self, n):
+                t = booleval.ev(n.test, env)
+                if t is None:
+                    return self.generic_visit(n)
+                out = []
+                for x in (n.body if t else n.orelse):
+                    r = self.visit(x)
+                    out.extend(r if isinstance(r, list) else [r])
+                return out
+
+            def visit_IfExp(self, n):
+                t = booleval.ev(n.test, env)
+                if t is None:
+                    return self.generic_visit(n)
+                return self.visit(n.body if t else n.orelse)
+
+            def visit_FunctionDef(self, n):
+                return n
+        out = []
+        for x in _copy.deepcopy(stmts):
+            r = F().visit(x)
+            out.extend(r if isinstance(r, list) else [r])
+        return [x for x in out if x is not None]
     branches = {}
-    node = top[0]
-    while True:
-        test = A.norm(node.test)
-        w = [x for x in node.body if isinstance(x, ast.With)]
-        branches[test] = w[0] if w else None
-        if node.orelse and len(node.orelse) == 1 and isinstance(node.orelse[0], ast.If):
-            node = node.orelse[0]
-            continue
-        w = [x for x in node.orelse if isinstance(x, ast.With)]
-        branches["else"] = w[0] if w else None
-        break
+    for case, env in CASES.items():
+        body = specialise(jw.node.body, env)
+        ws = [x for x in A.walk_stmts(body) if isinstance(x, ast.With) and open_call(x)[0] is not None]
+        branches[case] = ws[0] if len(ws) == 1 else None
     want = {
         "name == 'start'": ([("W", "[\n"), ("REC",), ("W", ",\n")], "'w'"),
         "name == 'stop'": ([("REC",), ("W", "\n]")], "'a'"),
@@ -239,7 +265,9 @@ def run(ctx):
         ok = max(st.lineno for st in stores) < writes[0][0].lineno
         ctx.ob("C34.D2-open-modes", cname(jl, None, "the filename is chosen before writing"), ok, "" if ok else "the file is opened before its name is fixed", where=where(jl, jl.node))
     st = branches.get("name == 'start'")
-    ok = any(isinstance(s, ast.Assign) and A.norm(s.targets[0]) == "self.filename" and A.norm(s.value).startswith("self.filename or ") for s in top[0].body)
+    fn_stores = [s_ for s_ in A.walk_stmts(specialise(jw.node.body, CASES["name == 'start'"])) if isinstance(s_, ast.Assign) and A.norm(s_.targets[0]) == "self.filename"]
+    other_stores = [s_ for case in ("name == 'stop'", "else") for s_ in A.walk_stmts(specialise(jw.node.body, CASES[case])) if isinstance(s_, ast.Assign) and A.norm(s_.targets[0]) == "self.filename"]
+    ok = bool(fn_stores) and all(A.norm(s_.value).startswith("self.filename or ") for s_ in fn_stores) and not other_stores
     ctx.ob("C34.D2-open-modes", cname(jw, None, "JSONWriter keeps a given filename"), ok, "" if ok else "filename overwritten", where=where(jw, jw.node))
 
 
